@@ -32,19 +32,25 @@ Inductive ast : Type :=
 | AFail.
 (* a = the bytes of the comment read so far that are not white space *)
 
-Definition acfg : Type := (list (list Z) * ast)%type.
+(* what the automaton has reported so far: the completed comments, and whether a line end was met outside a block
+   comment (such a line end is a newline token: the one that ends an end-of-line comment included) *)
+Definition aout : Type := (list (list Z) * bool)%type.
+Definition emitc (O : aout) (a : list Z) : aout := (fst O ++ [a], snd O).
+Definition emitn (O : aout) : aout := (fst O, true).
+
+Definition acfg : Type := (aout * ast)%type.
 
 Definition blankb (c : Z) : bool := (c =? 32) || (c =? 9).
 Definition eolb (c : Z) : bool := (c =? 10) || (c =? 13).
 
 (* a byte inside something that is (so far) an end-of-line comment *)
-Definition lstep (V : list (list Z)) (a : list Z) (c : Z) (other : ast) : acfg :=
-  if eolb c then (V ++ [a], AN) else if blankb c then (V, AL a) else (V, other).
+Definition lstep (V : aout) (a : list Z) (c : Z) (other : ast) : acfg :=
+  if eolb c then (emitn (emitc V a), AN) else if blankb c then (V, AL a) else (V, other).
 
 Definition delta (cf : acfg) (c : Z) : acfg :=
   let '(V, st) := cf in
   match st with
-  | AN => if eolb c || blankb c then (V, AN)
+  | AN => if eolb c then (emitn V, AN) else if blankb c then (V, AN)
           else if c =? 45 then (V, AD1) else if c =? 47 then (V, AS1) else (V, AFail)
   | AD1 => if c =? 45 then (V, AC2 [45; 45]) else (V, AFail)
   | AS1 => if c =? 47 then (V, AL [47; 47]) else (V, AFail)
@@ -53,21 +59,21 @@ Definition delta (cf : acfg) (c : Z) : acfg :=
   | AC3e a => lstep V a c (if c =? 91 then AFail else if c =? 61 then AC3e (a ++ [c]) else AL (a ++ [c]))
   | AL a => lstep V a c (AL (a ++ [c]))
   | AB a => if eolb c || blankb c then (V, AB a) else if c =? 93 then (V, AB1 (a ++ [c])) else (V, AB (a ++ [c]))
-  | AB1 a => if eolb c || blankb c then (V, AB a) else if c =? 93 then (V ++ [a ++ [c]], AN) else (V, AB (a ++ [c]))
+  | AB1 a => if eolb c || blankb c then (V, AB a) else if c =? 93 then (emitc V (a ++ [c]), AN) else (V, AB (a ++ [c]))
   | AFail => (V, AFail)
   end.
 
 Inductive aend : Set := EN | EL.
 
-Definition afinal (cf : acfg) : option (list (list Z) * aend) :=
+Definition afinal (cf : acfg) : option (aout * aend) :=
   match snd cf with
   | AN => Some (fst cf, EN)
-  | AC2 a | AC3 a | AC3e a | AL a => Some (fst cf ++ [a], EL)
+  | AC2 a | AC3 a | AC3e a | AL a => Some (emitc (fst cf) a, EL)
   | _ => None
   end.
 
 Definition afold (s : list Z) (cf : acfg) : acfg := fold_left delta s cf.
-Definition arun (cf : acfg) (s : list Z) : option (list (list Z) * aend) := afinal (afold s cf).
+Definition arun (cf : acfg) (s : list Z) : option (aout * aend) := afinal (afold s cf).
 
 Lemma afold_app a b cf : afold (a ++ b) cf = afold b (afold a cf).
 Proof. apply fold_left_app. Qed.
